@@ -32,17 +32,8 @@ func runC12(c *Ctx) {
 
 	// registry methods: methods of the context value type (the type stored under the context key)
 	ctxType := ""
-	if fd := findFunc(p, "", "InitializeContext"); fd != nil {
-		ast.Inspect(fd.Body, func(n ast.Node) bool {
-			if cl, ok := n.(*ast.CompositeLit); ok {
-				if t := info.TypeOf(cl); t != nil {
-					if nt, ok := t.(*types.Named); ok && nt.Obj().Pkg() == p.Types {
-						ctxType = nt.Obj().Name()
-					}
-				}
-			}
-			return true
-		})
+	if nt := renderStateType(c); nt != nil {
+		ctxType = nt.Obj().Name()
 	}
 	if ctxType == "" {
 		c.viol("C12.R2", "anchor-lost:context-value", "", "templ.InitializeContext (exported) does not allocate a context value")
@@ -67,43 +58,30 @@ func runC12(c *Ctx) {
 				rm.query = true
 			}
 		}
-		// the map field indexed with the parameter, and the constant key prefix
-		ast.Inspect(fd.Body, func(n ast.Node) bool {
-			if ix, ok := n.(*ast.IndexExpr); ok {
-				// the map may be reached through an accessor method of the same type (lazy creation): v.m()[k], or through a
-				// helper that is handed the field's address: ensure(&v.m)[k]
-				var x ast.Expr = ast.Unparen(ix.X)
-				if mf := stateMapOf(p, ix.X); mf != nil {
-					x = mf
-				}
-				if se, ok := x.(*ast.SelectorExpr); ok {
-					if _, isMap := info.TypeOf(se).Underlying().(*types.Map); isMap {
-						rm.field = se.Sel.Name
-						if be, ok := ix.Index.(*ast.BinaryExpr); ok && be.Op == token.ADD {
-							if s, ok := constString(info, be.X); ok {
-								rm.pref = s
-							}
-						}
-					}
+		// the map (or set) field consulted with the parameter, and the constant key prefix. The map may be reached
+		// through an accessor method of the same type (lazy creation): v.m()[k], through a helper that is handed the
+		// field's address: ensure(&v.m)[k], or be a set type of the package: v.m.has(k)
+		for _, acc := range stateAccessesIn(p, fd.Body) {
+			ft := info.TypeOf(acc.Field)
+			if ft == nil {
+				continue
+			}
+			if _, isMap := ft.Underlying().(*types.Map); !isMap {
+				continue
+			}
+			rm.field = acc.Field.Sel.Name
+			if be, ok := ast.Unparen(acc.Key).(*ast.BinaryExpr); ok && be.Op == token.ADD {
+				if s, ok := constString(info, be.X); ok {
+					rm.pref = s
 				}
 			}
-			return true
-		})
+			if acc.Write {
+				rm.writes = true
+			}
+		}
 		if rm.field == "" {
 			continue
 		}
-		ast.Inspect(fd.Body, func(n ast.Node) bool {
-			if as, ok := n.(*ast.AssignStmt); ok {
-				for _, l := range as.Lhs {
-					if ix, ok := ast.Unparen(l).(*ast.IndexExpr); ok {
-						if mf := stateMapOf(p, ix.X); mf != nil && mf.Sel.Name == rm.field {
-							rm.writes = true
-						}
-					}
-				}
-			}
-			return true
-		})
 		methods = append(methods, rm)
 		// R2: no package-level variables
 		global := ""
